@@ -77,7 +77,7 @@ def repr_def(rng, did, n=None, repr_=None, anchored=None, kinds="mixed", generic
     for i in range(n):
         val, explicit = vals[i]
         kind = "unit" if kinds == "unit" else rng.choice(["unit", "unit", "unit", "tuple", "named"])
-        nf = 0 if kind == "unit" else rng.choice([1, 2])
+        nf = 0 if kind == "unit" else rng.choice([0, 1, 2])
         fs = SC.rand_fields(rng, kind, nf, generics)
         v = IG.decorate(rng, variant(IG.IDS[i], kind, fs, dis=(rng.random() < 0.3) and not for_disc))
         if explicit:
